@@ -25,7 +25,7 @@ def run(ctx, chk):
         "the generated LR driver (symbol stack, state machine) does not abort: its %d Assert terminators are not analysed" % ctx.facts.mir("lib").get("skipped_generated_asserts", 0),
     ]
     P = ctx.program
-    chk.rule("C09.R1", "no abort site reachable from executing an instruction can fail", floor=300)
+    chk.rule("C09.R1", "no abort site reachable from executing an instruction can fail", floor=200)
     chk.rule("C09.R2", "every index into the 1 MB memory is < 2^20", floor=100)
     chk.rule("C09.R3", "every interpreter outcome is a State or a reported ParseError", floor=1)
     sites = Sites()
@@ -58,6 +58,11 @@ def run(ctx, chk):
     for name in ("driver::interrupts::int_13", "driver::interrupts::int_21"):
         fn_census(ctx, sites, "bin", name, lambda I, st: [RefV((0, "vm", ())), I.new_atom("u8", "ah")])
     chk.extra["units_analysed"] = sites.units
+    # the floor that matters is on analysed units (all interpreter productions + helpers + services), not on how many
+    # checked operations the code happens to contain: repairs legitimately remove abort sites
+    n_prods = sum(len(nt["productions"]) for nt in ctx.gram("interpreter").g["nonterminals"] if not nt["name"].startswith("__"))
+    if sites.units < n_prods or sites.units < 300:
+        chk.incomplete_("C09.R1", f"units analysed={sites.units} < productions={n_prods} (floor 300)")
     chk.extra["abort_sites"] = len(set(sites.sites) | set(sites.general))
     for u, why in sites.failed_units:
         chk.undecided_("C09.R1", u, why)
